@@ -71,7 +71,7 @@ inductive Tok where
   | bytes (v : Str)
   /-- literal chunk of an f-string with value `v`; braces are doubled iff `dbl` -/
   | flit (v : Str) (dbl : Bool)
-  /-- format spec of an f-string field, copied raw -/
+  /-- format spec of an f-string field made of plain characters only (escaping it like the literal chunks changes nothing) -/
   | fspec (s : Str)
   /-- hole number `i` of a message template -/
   | hole (i : Nat)
@@ -346,6 +346,10 @@ def sfyCmp : List (CmpOp × Node) → Option Toks
     | some t, some ts => some ([.sp, .t o.text, .sp] ++ t ++ ts)
     | _, _ => none
 
+/-- characters that mean the same raw, inside an f-string's format spec, as they do in the value -/
+def plainSpecChar (c : Char) : Bool :=
+  32 ≤ c.toNat && c.toNat < 127 && c ≠ '\\' && c ≠ '"' && c ≠ '\'' && c ≠ '{' && c ≠ '}'
+
 /-- `get_fstring_parts(CallExpr(callee, args))`, fused with the printing of the parts -/
 def fstrCall : Node → List (ArgKind × Str × Node) → FRes
   | .member (.str v) a, args =>
@@ -353,7 +357,7 @@ def fstrCall : Node → List (ArgKind × Str × Node) → FRes
       match args with
       | [(.pos, _, arg), (.pos, _, .str fmt)] =>
         .isF ((sfy arg).map (fun t =>
-          [.t "{"] ++ t ++ (if fmt.isEmpty then [] else [.t ":", .fspec fmt]) ++ [.t "}"]))
+          [.t "{"] ++ t ++ (if fmt.isEmpty then [] else if fmt.all plainSpecChar then [.t ":", .fspec fmt] else [.t ":", .flit fmt false]) ++ [.t "}"]))
       | _ => .notF
     else if v = [] ∧ a = sJoin then
       match args with
@@ -496,10 +500,6 @@ def wrap (level : Nat) (p : Nat) (ts : Toks) : Toks :=
   if p < level then [.t "("] ++ ts ++ [.t ")"] else ts
 
 def hasBrace (v : Str) : Bool := v.any (fun c => c = '{' || c = '}')
-
-/-- characters that mean the same raw, inside an f-string's format spec, as they do in the value -/
-def plainSpecChar (c : Char) : Bool :=
-  32 ≤ c.toNat && c.toNat < 127 && c ≠ '\\' && c ≠ '"' && c ≠ '\'' && c ≠ '{' && c ≠ '}'
 
 def startsWithBrace : Toks → Bool
   | .t s :: _ => s = "{"
